@@ -1,6 +1,6 @@
 """Claim texts for MANIFEST.json (tools/gen_manifest.py writes the file)."""
 
-REPO_FIX_COMMITS = ["d6b93bf (C15)", "bf9879b (C18)", "00db926 (C17)", "69cf7c1 (C14)", "6437988 (C11)", "98f4235 (C11)", "507e814 (C12)"]
+REPO_FIX_COMMITS = ["d6b93bf (C15)", "bf9879b (C18)", "00db926 (C17)", "69cf7c1 (C14)", "6437988 (C11)", "98f4235 (C11)", "997be27 (C12)", "fbe6454 (C02)", "17a33b1 (C01)", "bcface1 (C01)"]
 
 _PENDING = "checker for this property is not built yet in this round (see DESIGN.md section 3 for the planned rule)"
 
@@ -81,6 +81,36 @@ CLAIMS.update({
         note="Not decided: user agents overriding agent_type after creation; random_agents."),
 })
 
+CLAIMS.update({
+    "C01": dict(
+        technique="template extraction by abstract string evaluation of the DSL code generator + normal-form shape matching (R3) + time pass-through (R2) + hole-safety (R1)",
+        design_ref="DESIGN.md 2.4, 3/C01",
+        text="Every DSL model is an instantiation of a finite set of text templates (73 term() methods, 115 return paths, the "
+             "stock/flow/converter/constant function strings). The check extracts all of them from the current source and decides, "
+             "for all models at once, that the generated difference equations are explicit Euler: the stock template is "
+             "'init if t <= starttime else previous(t-dt) + dt*(netflow rendered at the same t-dt)', a flow is max(0, equation at t), "
+             "biflow/converter/constant shapes, every operand hole of every term() is rendered at the requested time (no str()/"
+             "__str__ path, no literal t), the sweep evaluates and stores under one key, memoize evaluates/stores under the "
+             "normalised key, lookup/step/delay/pulse/smooth/trend match their reference shapes, built-in templates keep compound "
+             "arguments as units. It decides the shape of what is evaluated, not numeric outcomes.",
+        note="Trusted: CPython's parser/eval, real arithmetic for + - * /. Not decided: numeric agreement with a reference "
+             "interpreter, conditioning, interp1d, strictness of step's comparison. Known findings: Smooth/Trend adjust through a "
+             "clamped flow."),
+    "C02": dict(
+        technique="finite hole-safety table (outer template x hole x inner rendering) decided with CPython's parser under a real-arithmetic normal form, lifted to all depths by induction",
+        design_ref="DESIGN.md 2.4 R1, 3/C02",
+        text="For the property's whole vocabulary (+ - * / ** % unary minus, comparisons, If/And/Or/Not, min/max/abs/sqrt/exp/"
+             "round, array aggregates, dot) every (template, operand hole, inner rendering) triple is enumerated - the table is "
+             "finite - and decided: the spliced text must parse to the tree obtained by grafting the inner tree at the hole "
+             "(equality under a normal form that accepts re-association of sums/products and nothing else). All triples safe "
+             "implies, by induction over depth in an operator-precedence grammar, that every expression tree of every depth "
+             "renders to text with the tree's value; plus operand order and operator class of every arithmetic/comparison "
+             "dunder on Element and Operator. Closest to a proof of the grouping clause; level 'other' because the induction "
+             "step is an argument in DESIGN.md, not a machine-checked one.",
+        note="Trusted: CPython's parser; locality of precedence (induction step); real-number semantics. Not decided: that eval "
+             "computes ordinary arithmetic; values near discontinuities; float re-association error."),
+})
+
 NOT_APPLICABLE = {p: _PENDING for p in
-                  ["C01", "C02", "C03", "C04", "C05", "C06", "C07", "C08", "C09", "C10",
+                  ["C03", "C04", "C05", "C06", "C07", "C08", "C09", "C10",
                    "C16", "C19", "C20"]}
